@@ -34,6 +34,8 @@ def make(c, stochastic):
   fam = c["fam"]
   if fam == "fixed":
     return make_fixed(c, use_stochastic_rounding=stochastic)
+  if fam == "sign1":
+    return Q.quantized_linear(1, c["int"], keep_negative=True, use_stochastic_rounding=stochastic)
   if fam == "po2":
     mv = 2.0 ** c["mvk"] if c["hasmv"] else None
     if c["cls"] == "po2":
@@ -79,6 +81,9 @@ def inputs(c, rnd, tier):
       for m in (1.0, 1.0625, 1.25, 1.5, 1.75, 1.9375):
         xs += [m * 2.0 ** k, -m * 2.0 ** k]
     return [f32(xs)]
+  if c["fam"] == "sign1":                    # multiples of step / 64 around the two codes (every float32 sum is exact)
+    ks = sorted(set([-96, -48, -33, -32, -31, -16, -1, 0, 1, 16, 31, 32, 33, 48, 96] + [rnd.randint(-40, 40) for _ in range(20)]))
+    return [f32([k / 64.0 * 2.0 ** c["int"] for k in ks])]
   if c["fam"] == "sb":
     return [f32([rnd.uniform(-0.4, 0.4) for _ in range(30)] + [0.0, -0.0, 1.0, -1.0, 0.0625, -0.0625, 0.125, -0.125, 1.0 / 6, -1.0 / 6, 3.0])]
   a = f32([rnd.uniform(-2, 2) for _ in range(12)] + [0.0, 0.4, -0.4, 1.0])
@@ -103,7 +108,7 @@ def main():
         errors.append({"k": "exc_deterministic", "c": ci + 1, "exc": repr(e)[:300]})
         continue
       plan = [(0, 0.5)]
-      if c["fam"] in ("fixed", "po2", "sb"):
+      if c["fam"] in ("fixed", "po2", "sb", "sign1"):
         draws = DRAWS if tier == "thorough" else rnd.sample(DRAWS[1:-1], 3) + [DRAWS[0], DRAWS[-1]]
         if c["fam"] == "po2":
           draws = [d for d in draws if d > 0]
